@@ -443,6 +443,8 @@ func runC04(c *Ctx) {
 	ruleAsyncFlag(c, "C04.20")
 	ruleChanDirMapping(c, "C04.21", genPkg)
 	rulePairedEdges(c, "C04.22")
+	ruleLhsOnePerResult(c, "C04.23")
+	ruleContextFirst(c, "C04.24")
 	ruleEllipsisOnlyLast(c, "C04.6")
 
 	// C04.10 user identifiers reach the allocator (shared with C12): otherwise a generated local can shadow a user name
